@@ -304,7 +304,7 @@ def judge_and_report(prop, tier, seed, meta, agg, t0, extra_cov=None, extra_viol
 
 def run_generic(prop, tier, seed, meta, t0):
     nshards = meta.get("shards", {}).get(tier, 8 if tier == "quick" else 16)
-    case_timeout = meta.get("case_timeout", 60)
+    case_timeout = meta.get("case_timeout", 40)
     deadline = time.time() + meta.get("deadline", {}).get(tier, 900 if tier == "quick" else 3600)
     agg = Agg()
     lock = threading.Lock()
@@ -319,7 +319,7 @@ def run_generic(prop, tier, seed, meta, t0):
         if ev["k"] is None:
             agg.inc["worker died outside a case"] += 1
             continue
-        kind, flags, res = rerun_alone(prop, tier, seed, ev["k"], meta.get("alone_timeout", 120))
+        kind, flags, res = rerun_alone(prop, tier, seed, ev["k"], meta.get("alone_timeout", 40))
         if kind == "ok":
             agg.inc["worker %s not reproduced when re-run alone" % ev["kind"]] += 1
             agg.add_case(ev["k"], res)
